@@ -102,3 +102,73 @@ def bounded_lexer(tier, seed):
 
 spec.EXTRA_CHECKS = getattr(spec, 'EXTRA_CHECKS', {})
 spec.EXTRA_CHECKS.setdefault('C16', []).append(bounded_lexer)
+
+
+# ---- tokens are told apart by their CLASS, not by their text: a quoted string is a value whatever it spells
+#      ("a quoted string may contain any characters"; braces round a single value change nothing)
+from . import parserlib as PL
+EPP = 'bardolph/parser/expr_parser.py'
+PL.phrase_contract(EPP, 'ExpressionParser._atom', 'atom', min_len=1)       # for the recursion under a unary sign
+
+
+def _atom_setup(type_name, content=None):
+    def _setup(b, case):
+        text = b.sym('str', 'token_text') if content is None else content
+        tok = PL.concrete_token(b.I, type_name, text)
+        pr = PL.parser(b, first_token=tok)
+        ep = b.new(('bardolph.parser.expr_parser', 'ExpressionParser'), pr)
+        return {'self': ep, '_p': pr}
+    return _setup
+
+
+for tname in ('LITERAL_STRING', 'NUMBER', 'NAME', 'REGISTER'):
+    c = contract(EPP, 'ExpressionParser._atom', serves=['C16', 'C02', 'C06'], uses=('parser',), name='ExpressionParser._atom[%s, any text]' % tname)
+    c.setup(_atom_setup(tname))
+    c.ensures('accept-or-message', 'result is True or (falsy(result) and errs() > old(errs()))')
+    c.ensures('an-operand-token-is-an-operand-whatever-it-spells',
+              "result is True ==> len(emitted(_p)) == 1 and is_seg(emitted(_p)[0], 'value')")
+
+c = contract(EPP, 'ExpressionParser._atom', serves=['C02', 'C06'], uses=('parser',), name="ExpressionParser._atom[MARK '(']")
+c.setup(_atom_setup('MARK', '('))
+c.ensures('accept-or-message', 'result is True or (falsy(result) and errs() > old(errs()))')
+c.ensures('parenthesised-expression', "result is True ==> len(emitted(_p)) == 1 and is_seg(emitted(_p)[0], 'expr') and tokens_consumed() >= 3")
+c = contract(EPP, 'ExpressionParser._atom', serves=['C02', 'C06'], uses=('parser',), name="ExpressionParser._atom[MARK '-']")
+c.setup(_atom_setup('MARK', '-'))
+c.ensures('accept-or-message', 'result is True or (falsy(result) and errs() > old(errs()))')
+c.ensures('a-leading-minus-negates-its-operand', "result is True ==> len(emitted(_p)) == 3 and is_seg(emitted(_p)[0], 'atom') and "
+          "instr(emitted(_p)[1], 'PUSHQ', -1) and instr(emitted(_p)[2], 'OP', Operator.MUL)")
+c = contract(EPP, 'ExpressionParser._atom', serves=['C02', 'C06'], uses=('parser',), name="ExpressionParser._atom[MARK '+']")
+c.setup(_atom_setup('MARK', '+'))
+c.ensures('accept-or-message', 'result is True or (falsy(result) and errs() > old(errs()))')
+c.ensures('a-leading-plus-changes-nothing', "result is True ==> len(emitted(_p)) == 1 and is_seg(emitted(_p)[0], 'atom')")
+
+# Token.is_binop / prec: a quoted string is never an operator
+c = contract('bardolph/parser/token.py', 'string_token_class', serves=['C16', 'C02'], name='lemma:a quoted string is never an operator', src='''
+def string_token_class(tok):
+    return (tok.is_binop, tok.prec)
+''')
+def _setup(b, case):
+    tt = b.cls('bardolph.parser.token', 'TokenTypes')
+    from pyvc.values import PyObj
+    return {'tok': PyObj(b.cls('bardolph.parser.token', 'Token'), {'_token_type': tt.members['LITERAL_STRING'], '_content': b.sym('str', 'content'),
+                                                                  '_line_number': 1, '_file_name': ''})}
+c.setup(_setup)
+c.ensures('not-a-binary-operator', 'result[0] is False or not result[0]')
+c.ensures('no-precedence', 'result[1] == -1')
+
+# the statement-level value parser: a quoted string is the value it spells, for every text and every destination
+for dname, mkdest in (('Register.RESULT', lambda b: b.enum('bardolph.vm.vm_codes', 'Register', 'RESULT')),
+                      ('variable', lambda b: b.sym('str', 'dest_name')),
+                      ('OpCode.PUSH', lambda b: b.enum('bardolph.vm.vm_codes', 'OpCode', 'PUSH'))):
+    c = contract('bardolph/parser/parse.py', 'Parser._rvalue', serves=['C16', 'C06', 'C01'], uses=('parser',),
+                 name='Parser._rvalue[LITERAL_STRING, any text, dest=%s]' % dname)
+    def _setup(b, case, mkdest=mkdest):
+        text = b.sym('str', 'token_text')
+        pr = PL.parser(b, first_token=PL.concrete_token(b.I, 'LITERAL_STRING', text))
+        return {'self': pr, 'dest': mkdest(b), '_text': text}
+    c.setup(_setup)
+    c.ensures('accepted', 'result is True and errs() == old(errs()) and tokens_consumed() == old(tokens_consumed()) + 1')
+    if dname == 'OpCode.PUSH':
+        c.ensures('pushes-the-text-itself', "len(emitted(self)) == 1 and instr(emitted(self)[0], 'PUSHQ') and emitted(self)[0].param0 == _text")
+    else:
+        c.ensures('moves-the-text-itself', "len(emitted(self)) == 1 and instr(emitted(self)[0], 'MOVEQ') and emitted(self)[0].param0 == _text and same_dest(emitted(self)[0].param1, dest)")
